@@ -4,11 +4,12 @@
    No proofs in this file. *)
 From Coq Require Import ZArith List Bool.
 From NQ Require Import Exec.State Exec.Sem Exec.Exec Exec.SemQ.
+From NQ Require Exec.HwSem Exec.HwExec.
 Import ListNotations.
 Open Scope Z_scope.
 
 (* Python exception class raised by the implementation for each fault reason:
-   0 RuntimeError  1 AssertionError  2 IndexError  3 ValueError  4 TypeError  (5 anything else) *)
+   0 RuntimeError  1 AssertionError  2 IndexError  3 ValueError  4 TypeError  6 OverflowError  (5 anything else) *)
 Definition kind_class (k : fkind) : Z :=
   match k with
   | FUndefReg | FUndefEntry | FModulus | FAlloc | FFree | FNoSlice => 0
@@ -17,6 +18,7 @@ Definition kind_class (k : fkind) : Z :=
   | FUnitRange => 3
   | FType => 4
   | FBook => 5
+  | FOverflow => 6
   end.
 
 (* what the implementation did with one subroutine *)
@@ -134,6 +136,19 @@ Fixpoint indices_where {A} (f : A -> bool) (l : list A) (i : Z) : list Z :=
 Definition exec_failing (cs : list ecase) : list Z := indices_where (fun c => negb (check_exec c)) cs 0.
 Definition sem_failing (cs : list ecase) : list Z := indices_where (fun c => check_sem c =? 2) cs 0.
 Definition sem_open (cs : list ecase) : list Z := indices_where (fun c => check_sem c =? 1) cs 0.
+
+(* ------------------------------------------------------------------ with a configuration
+   (cases run on the real Executor with set_is_using_hardware(True) are compared with the
+   models under cfg_hardware: width checks, FOverflow = OverflowError) *)
+Definition check_exec_cfg (cfg : config) (c : ecase) : bool :=
+  all_match (HwExec.hrun_many cfg (c_subs c) (init_state (c_cap c)) (c_fuel c)) (c_expect c).
+Definition check_sem_cfg (cfg : config) (c : ecase) : Z :=
+  sem_walk (HwSem.hrun_many cfg (c_subs c) (init_state (c_cap c)) (c_fuel c)) (c_expect c).
+
+Definition hexec_failing (cs : list ecase) : list Z :=
+  indices_where (fun c => negb (check_exec_cfg cfg_hardware c)) cs 0.
+Definition hsem_failing (cs : list ecase) : list Z := indices_where (fun c => check_sem_cfg cfg_hardware c =? 2) cs 0.
+Definition hsem_open (cs : list ecase) : list Z := indices_where (fun c => check_sem_cfg cfg_hardware c =? 1) cs 0.
 
 (* ------------------------------------------------------------------ SemQ vs the real Executor
    (quantum extension points of the harness executor only record events; the
